@@ -4,7 +4,8 @@ package handshake
 //symgo:param NMSGBODY quick=10 thorough=16
 //symgo:param NKX quick=8 thorough=10
 //symgo:param NCERT quick=10 thorough=14
-//symgo:param NCREQ quick=7 thorough=8
+//symgo:param NCREQ quick=6 thorough=8
+//symgo:param NCA quick=7 thorough=10
 //symgo:param NHELLO quick=9 thorough=16
 //symgo:param NTICKET quick=6 thorough=10
 //symgo:outside message bodies longer than the per-decoder byte bound stated at each entry; handshake bodies of 64 KiB and more except for the ServerKeyExchange identity-hint length check (zzDecHsServerKeyExchangeHuge)
@@ -179,7 +180,7 @@ func zzDecHsCertificateNoPanic() {
 // CertificateRequest (DTLS 1.2) Unmarshal called directly on an arbitrary body of every length 0..NCREQ:
 // no panic, loops end.
 //
-//symgo:entry covers=creq12_ok,creq12_rejected,creq12_ca
+//symgo:entry covers=creq12_ok,creq12_rejected
 func zzDecHsCertificateRequest12NoPanic() {
 	n := zzsymChoice("len", zzsymParam("NCREQ")+1)
 	data := zzsymBytes("d", n)
@@ -193,10 +194,31 @@ func zzDecHsCertificateRequest12NoPanic() {
 		kept += len(ca)
 	}
 	zzsymAssert(kept <= n, "decoded_message_not_larger_than_body")
-	if len(m.CertificateAuthoritiesNames) > 0 {
-		zzsymCover("creq12_ca")
-	}
 	zzsymCover("creq12_ok")
+}
+
+// CertificateRequest (DTLS 1.2) Unmarshal with empty certificate_types and signature-algorithm lists followed by
+// an arbitrary certificate_authorities block (length field + 0..NCA bytes): the DistinguishedName loop runs on
+// hostile lengths: no panic, loop ends, names never exceed the block.
+//
+//symgo:entry covers=creqca_ok,creqca_two,creqca_rejected
+func zzDecHsCertificateRequest12CANoPanic() {
+	n := zzsymChoice("calen", zzsymParam("NCA")+1)
+	data := append([]byte{0, 0, 0}, zzsymBytes("ca", 2+n)...)
+	m := MessageCertificateRequest{}
+	if err := m.Unmarshal(data); err != nil {
+		zzsymCover("creqca_rejected")
+		return
+	}
+	kept := 0
+	for _, ca := range m.CertificateAuthoritiesNames {
+		kept += 2 + len(ca)
+	}
+	zzsymAssert(kept <= n, "ca_names_inside_block")
+	if len(m.CertificateAuthoritiesNames) > 1 {
+		zzsymCover("creqca_two")
+	}
+	zzsymCover("creqca_ok")
 }
 
 // CertificateRequest (DTLS 1.3) Unmarshal called directly on an arbitrary body of every length 0..NCREQ+2
